@@ -143,6 +143,9 @@ def check(ctx):
                 st = stmt_text(ev['eff'].node) + ' [path: %s]' % path_origin(ev['path'])
                 if once('R10-bytecode-path', st):
                     pth = ev['path']
+                    # pathlib.Path(x) / str(x) / os.fspath(x) name the same file as x
+                    while isinstance(pth, ast.Call) and (call_name(pth) or '').split('.')[-1] in ('Path', 'PurePath', 'str', 'fspath') and len(pth.args) == 1 and not pth.keywords:
+                        pth = pth.args[0]
                     ok = False
                     if isinstance(pth, ast.Attribute) and pth.attr == '__cached__' and model.sym(pth.value):
                         ok = True
